@@ -164,6 +164,8 @@ def check(ctx):
     shared.check_degree_recompute(ctx)
     apply_shape(ctx)
     existence_patterns(ctx)
+    from ..rules import symmetry
+    symmetry.check_side_symmetry(ctx)
     ctx.floor('A4', 45, 'graph walks')
     ctx.floor('A17', 3, 'pattern look-ups')
     ctx.floor('A5', 9, 'apply-shape clauses')
